@@ -7,7 +7,7 @@ cd $wt || exit 2
 git diff > /tmp/confirm_$pid.diff; if ! diff -q /tmp/confirm_$pid.diff $out/patch.diff >/dev/null; then echo "worktree diff != patch.diff"; fi
 suite=$(cargo test --workspace --no-fail-fast --offline 2>&1 | grep -E "^test result" | awk '{p+=$4; f+=$6} END {print "passed="p" failed="f}')
 bash $out/demo/demo.sh $wt > /tmp/confirm_${pid}_mod.log 2>&1; rc_mod=$?
-bash $out/demo/demo.sh /repo > /tmp/confirm_${pid}_orig.log 2>&1; rc_orig=$?
+bash $out/demo/demo.sh "${CLEAN:-/repo}" > /tmp/confirm_${pid}_orig.log 2>&1; rc_orig=$?
 echo "$pid suite_with_change: $suite ; demo_with_change_exit=$rc_mod ; demo_without_exit=$rc_orig"
 python3 - "$pid" "$suite" "$rc_mod" "$rc_orig" "$name" <<'PY'
 import json, sys
